@@ -81,8 +81,8 @@ fn cmp_side(c: u8, v: i64, l: i64, flip: bool) -> (Box<LogicalExpression>, bool)
 //@ property: C10
 //@ tier: thorough
 //@ optional: yes
-//@ cap_s: 2400
-//@ mem_gb: 28
+//@ cap_s: 1500
+//@ mem_gb: 18
 //@ unwind: 5
 //@ unwindset: as std::clone::Clone>::clone$:1; ^std::ptr::drop_glue::<:1; ^std::ptr::drop_in_place::<:1; check_zone_map_for_predicate$:1
 //@ stubs: parking_lot slow paths, alloc::fmt::format, RandomState::new, dashmap lock slow paths
@@ -111,8 +111,8 @@ plan_h!(c10_planner_zone_map_single, {
 //@ property: C10
 //@ tier: thorough
 //@ optional: yes
-//@ cap_s: 2400
-//@ mem_gb: 28
+//@ cap_s: 1500
+//@ mem_gb: 18
 //@ unwind: 5
 //@ unwindset: as std::clone::Clone>::clone$:1; ^std::ptr::drop_glue::<:1; ^std::ptr::drop_in_place::<:1; check_zone_map_for_predicate$:2
 //@ stubs: parking_lot slow paths, alloc::fmt::format, RandomState::new, dashmap lock slow paths
